@@ -516,6 +516,23 @@ def rule_scheme_patterns(run, F, cfg):
         "https://": {"FROM_HTTPS": "true", "FROM_HTTP": "false", "IS_LEFT_ANCHOR": "false"},
         "http*://": {"FROM_HTTPS": "true", "FROM_HTTP": "true", "IS_LEFT_ANCHOR": "false"},
     }
+    # ... and only when the text IS the scheme: the arm is entered under `end == start + len(literal)` as well, so
+    # `|https://example.com/ads` keeps its text (an arm taken for a longer pattern would erase it: the rule would
+    # then apply to every request of that scheme)
+    exact = {}
+    for b, t in p.calls(r"::set$"):
+        c = dominating_conditions(p, b, render=p.vexpr_operand)
+        lits = [re.search(r'starts_with\(.*\{start: (\$\w+)\}\), "([^"]*://)"\)$', k) for k, val in c.items() if val == 1]
+        lits = [m_ for m_ in lits if m_]
+        for m_ in lits:
+            start, lit = m_.group(1), m_.group(2)
+            ok_len = any(re.match(r"^\((\$\w+) Eq \(" + re.escape(start) + r" AddWithOverflow " + str(len(lit)) + r"\)\.0\)$", k) and val == 1
+                         for k, val in c.items())
+            exact[lit] = exact.get(lit, True) and ok_len
+    for lit in want:
+        run.ob("C03.6.scheme-patterns", f"pattern:|{lit}:whole-pattern", exact.get(lit) is True,
+               f"the scheme arm for `{lit}` is entered only when the remaining pattern is exactly {len(lit)} bytes long "
+               f"(`filter_index_end == filter_index_start + {len(lit)}`)", site=p.loc(0), config=cfg)
     for lit, w in want.items():
         run.ob("C03.6.scheme-patterns", f"pattern:|{lit}", got.get(lit) == w,
                f"a rule whose whole pattern is `|{lit}` sets the scheme bits {got.get(lit)} (expected {w}): the rule "
